@@ -310,6 +310,19 @@ func makeCaseTrap(c *core.Ctx, nRefs, L, nQueries int, trap bool) (*gen.RefCase,
 		nTie = 0
 	}
 	rc := gen.NewRefCase(c.Rng, nRefs, L, nQueries, nTie)
+	if nRefs <= 40 && c.Rng.Intn(6) == 0 {
+		// low-complexity amplicons: every sequence starts with the same long microsatellite or
+		// homopolymer, so that one 4-mer occurs several hundred times in queries and references
+		unit := []string{"a", "ac", "acg", "t"}[c.Rng.Intn(4)]
+		block := []byte(strings.Repeat(unit, (260+c.Rng.Intn(300))/len(unit)+1))
+		for i := range rc.Refs {
+			rc.Refs[i] = append(append([]byte{}, block...), rc.Refs[i]...)
+		}
+		for i := range rc.Queries {
+			rc.Queries[i] = append(append([]byte{}, block...), rc.Queries[i]...)
+		}
+		c.Count("low_complexity_cases", 1)
+	}
 	spec := gen.Taxonomy(c.Rng, 1+c.Rng.Intn(40))
 	node := gen.AssignTaxa(c.Rng, rc, spec)
 	self := -1
@@ -330,7 +343,8 @@ func runClosestWith(find finder, capped bool) func(c *core.Ctx) {
 		var rc *gen.RefCase
 		var d *db
 		nq := c.Pick(12, 24)
-		if capped && c.Idx < c.Pick(2, 12) {
+		if (capped && c.Idx < c.Pick(2, 12)) || (!capped && c.Idx < c.Pick(1, 3)) {
+			// obitag2 stops after 1001 candidates (recorded finding); obitag must not
 			rc, d = capCase(c, nq)
 		} else {
 			nRefs, L := caseSizes(c)
